@@ -42,6 +42,10 @@ var charKinds = []charKind{
 	{100, 1000, 100, 3, 0, model.TargetType_ENEMIES, model.TargetType_ENEMIES, model.TargetType_ENEMIES, false, false},
 	{110, 900, 100, 1, 1, model.TargetType_ENEMIES, model.TargetType_ENEMIES, model.TargetType_ENEMIES, true, false},
 	{95, 1100, 100, 1, 1, model.TargetType_ENEMIES, model.TargetType_ENEMIES, model.TargetType_ENEMIES, false, true},
+	// skill and ultimate aim at different sides (as for 9 of the registered characters)
+	{105, 950, 100, 1, 1, model.TargetType_ENEMIES, model.TargetType_ALLIES, model.TargetType_ENEMIES, false, false},
+	{98, 1050, 90, 1, 1, model.TargetType_ENEMIES, model.TargetType_ENEMIES, model.TargetType_ALLIES, false, false},
+	{102, 1000, 100, 2, 1, model.TargetType_ENEMIES, model.TargetType_SELF, model.TargetType_ENEMIES, true, true},
 }
 
 var simFlags = []int{1, 3, 100}
